@@ -126,39 +126,42 @@ def run_driver(repo=REPO, log=sys.stderr, extra_args=("--workspace", "--lib"), f
     print("[gmxsa] facts extracted in %.1fs" % (time.time() - t), file=log)
 
 
-def ensure(log=sys.stderr):
-    """Make sure FACTS corresponds to the current /repo tree. Returns the stamp dict."""
+def ensure(log=sys.stderr, repo=None, facts_dir=None):
+    """Make sure the facts directory corresponds to the current tree of `repo`. Returns the stamp dict."""
+    repo = repo or REPO
+    facts_dir = facts_dir or FACTS
+    stamp_path = os.path.join(facts_dir, "STAMP.json")
     os.makedirs(CACHE, exist_ok=True)
     lock = open(os.path.join(CACHE, "lock"), "w")
     fcntl.flock(lock, fcntl.LOCK_EX)
     try:
         build_driver(log)
-        digest, nfiles = repo_digest()
-        want = {"repo_digest": digest, "driver_digest": driver_digest(), "repo": REPO}
-        if os.path.exists(STAMP):
+        digest, nfiles = repo_digest(repo)
+        want = {"repo_digest": digest, "driver_digest": driver_digest(), "repo": repo}
+        if os.path.exists(stamp_path):
             try:
-                have = json.load(open(STAMP))
+                have = json.load(open(stamp_path))
             except Exception:
                 have = {}
             if all(have.get(k) == v for k, v in want.items()) and all(
-                    os.path.exists(os.path.join(FACTS, c + ".lib.json")) for c in EXPECTED_CRATES):
+                    os.path.exists(os.path.join(facts_dir, c + ".lib.json")) for c in EXPECTED_CRATES):
                 return have
         # stale or missing: full re-extraction
-        print("[gmxsa] facts stale or missing — re-extracting from %s (%d source files)" % (REPO, nfiles), file=log)
-        shutil.rmtree(FACTS, ignore_errors=True)
-        os.makedirs(FACTS, exist_ok=True)
-        _purge_fingerprints(REPO)
-        run_driver(REPO, log)
-        missing = [c for c in EXPECTED_CRATES if not os.path.exists(os.path.join(FACTS, c + ".lib.json"))]
+        print("[gmxsa] facts stale or missing — re-extracting from %s (%d source files)" % (repo, nfiles), file=log)
+        shutil.rmtree(facts_dir, ignore_errors=True)
+        os.makedirs(facts_dir, exist_ok=True)
+        _purge_fingerprints(repo)
+        run_driver(repo, log, facts_dir=facts_dir)
+        missing = [c for c in EXPECTED_CRATES if not os.path.exists(os.path.join(facts_dir, c + ".lib.json"))]
         if missing:
             raise SystemExit("gmxsa: no facts produced for crates %s (fail closed)" % missing)
         # the digest must not have moved while we were extracting
-        digest2, _ = repo_digest()
+        digest2, _ = repo_digest(repo)
         if digest2 != digest:
-            raise SystemExit("gmxsa: /repo changed during extraction; re-run")
+            raise SystemExit("gmxsa: %s changed during extraction; re-run" % repo)
         want["n_source_files"] = nfiles
         want["extracted_at"] = time.time()
-        with open(STAMP, "w") as fh:
+        with open(stamp_path, "w") as fh:
             json.dump(want, fh)
         return want
     finally:
